@@ -214,6 +214,38 @@ func (c *Ctx) constStrings(v ssa.Value, d int, seen map[ssa.Value]bool) []string
 			for _, a := range args {
 				walk(a, d+1)
 			}
+		case *ssa.Extract, *ssa.Call:
+			// the constant is chosen by a module helper (creationNames(isEpic) -> ("new_epic","epic") | ("new_task","task"))
+			idx := 0
+			var cl *ssa.Call
+			if ex, ok := y.(*ssa.Extract); ok {
+				idx = ex.Index
+				cl, _ = ex.Tuple.(*ssa.Call)
+			} else {
+				cl = y.(*ssa.Call)
+			}
+			var cal *ssa.Function
+			if cl != nil {
+				cal = cl.Call.StaticCallee()
+			}
+			if cal == nil || cal.Blocks == nil || !c.InModule(cal) {
+				unresolved = true
+				return
+			}
+			rets := returnsOf(cal)
+			if res := cal.Signature.Results(); res.Len() > 0 && res.At(res.Len()-1).Type().String() == "error" {
+				rets = c.nonFailingReturns(cal) // the value is only used when the helper succeeded
+			}
+			if len(rets) == 0 {
+				unresolved = true
+			}
+			for _, r := range rets {
+				if idx >= len(r.Results) {
+					unresolved = true
+					return
+				}
+				walk(returnedValue(r, idx), d+1)
+			}
 		default:
 			unresolved = true
 		}
@@ -255,6 +287,18 @@ func (c *Ctx) isReplayOrCompact(fn *ssa.Function) bool {
 
 // successReturns: returns of f whose error result (last result) is the nil constant
 // (looking through the named-result cell spill of deferred functions).
+// nonFailingReturns: the returns of f that are not known to hand back a non-nil error.
+func (c *Ctx) nonFailingReturns(f *ssa.Function) []*ssa.Return {
+	var out []*ssa.Return
+	for _, r := range returnsOf(f) {
+		if r.Block().Comment == "recover" || c.definitelyFails(f, r) {
+			continue
+		}
+		out = append(out, r)
+	}
+	return out
+}
+
 func successReturns(f *ssa.Function) []*ssa.Return {
 	var out []*ssa.Return
 	for _, r := range returnsOf(f) {
